@@ -176,11 +176,15 @@ def rng(seed, *salt):
 
 
 def load_known_findings(pid):
-    path = os.path.join(VERIF, 'known_findings.json')
-    if not os.path.exists(path):
-        return []
-    data = json.load(open(path))
-    return [e for e in data.get('findings', []) if e.get('property') == pid]
+    """known_findings.json (committed, never written at run time); known_findings.d/*.json are
+    per-property fragments with the same format, merged on load."""
+    out = []
+    paths = [os.path.join(VERIF, 'known_findings.json')] + sorted(glob.glob(os.path.join(VERIF, 'known_findings.d', '*.json')))
+    for path in paths:
+        if os.path.exists(path):
+            data = json.load(open(path))
+            out += [e for e in data.get('findings', []) if e.get('property') == pid]
+    return out
 
 
 def write_replay(pid, payload):
